@@ -1610,4 +1610,28 @@ theorem raise_eq_fuel_out_clock (kidsC : Rat → Entry → List (Rat × Nat)) (r
 example : (loopXC (fun clk _ => [(clk + 1, 0)]) (fun e => e.ctr == 1) 5 10
     (addCallback init 1 0)).raisedAt = some ⟨2, 1, 0⟩ := by decide +kernel
 
+/-! ### Termination of the zero-delay DAG class with a concrete weight (round 6) -/
+
+/-- **Callbacks that schedule only callbacks of strictly larger id terminate, whatever the delays**
+(zero, below the coalescing window, negative): if every callback due before the horizon schedules at
+most `B` children, all with ids above its own and below `N`, the loop returns for every fuel above
+`Σ_{q queued} (B+1)^(N - q.id)` — the concrete weight `dagWeight` for `terminates_of_weight`.  This is
+the class the harness generates for same-instant children (styles ties/coalesce/mixed/negkids). -/
+theorem terminates_if_dag {kids : Entry → List (Rat × Nat)} {T : Rat} {B N : Nat}
+    (hB : ∀ e, e.time < T → (kids e).length ≤ B)
+    (hdag : ∀ e, e.time < T → ∀ c ∈ kids e, e.id < c.2 ∧ c.2 < N) (s : Sys) :
+    ∀ fuel, potential (dagWeight B N) s.queue < fuel → (loop kids T fuel s).status = .ok :=
+  terminates_of_weight (dagWeight B N) (dag_weight hB hdag) s
+
+/-- id 0 schedules id 1 for the same instant and id 2 half a unit *earlier*; nobody else schedules -/
+def dagDemo (e : Entry) : List (Rat × Nat) := if e.id = 0 then [(e.time, 1), (e.time - 1/2, 2)] else []
+
+example : (∀ e, e.time < (3 : Rat) → (dagDemo e).length ≤ 2) ∧
+    (∀ e, e.time < (3 : Rat) → ∀ c ∈ dagDemo e, e.id < c.2 ∧ c.2 < 3) := by
+  constructor
+  · intro e _; unfold dagDemo; split <;> simp
+  · intro e _ c hc; unfold dagDemo at hc; split at hc
+    · simp at hc; rcases hc with rfl | rfl <;> simp <;> omega
+    · simp at hc
+
 end HcipyVerif.Scheduler
